@@ -179,6 +179,13 @@ func (h *TwoPartyHandler) advance() {
 }
 
 func (h *TwoPartyHandler) CanAccept(msg *Message) bool {
+	h.mtx.Lock()
+	defer h.mtx.Unlock()
+	return h.canAccept(msg)
+}
+
+// canAccept is CanAccept for callers that already hold the lock.
+func (h *TwoPartyHandler) canAccept(msg *Message) bool {
 	r := h.round
 	if msg == nil {
 		return false
@@ -208,7 +215,7 @@ func (h *TwoPartyHandler) Accept(msg *Message) {
 	h.mtx.Lock()
 	defer h.mtx.Unlock()
 
-	if !h.CanAccept(msg) || h.err != nil || h.result != nil {
+	if !h.canAccept(msg) || h.err != nil || h.result != nil {
 		return
 	}
 
